@@ -17,10 +17,15 @@ CLAIMED = {
  'C13': 'finite and complete: every concrete class x every class with a flag, symbolic flag value, against std::is_base_of',
  'C14': 'matches_response of every overriding class: memory safety on every reply length in the bound with a probe inner layer; mirror/perturbation relation for Ethernet, IPv4, TCP, UDP, ICMP, ICMPv6, DNS, ARP',
  'C15': 'every discovered (class, scalar/address field) pair: set arbitrary value on an arbitrary parsed header state, getter returns it (or value_too_large), every non-aliasing getter unchanged',
+ 'C18': 'frame condition instead of schedules: for 8 representative operations on thread-private objects the byte snapshot of every mutable global of the translated unit (enumerated from the IR on each run) is unchanged by the operation on symbolic inputs; no race detector, no real threads',
  'C19': 'only the wrap-aware range splitter AckedRange for every (first,last) less than 2^31 apart: at most two ordered disjoint intervals whose union is exactly the cyclic range. AckTracker histories over boost::icl are NOT decided',
  'C16': 'IPv4/IPv6/hardware address order, equality, hash, masks, prefix ranges (every prefix length), contains, iteration at symbolic positions incl. the top of the IPv4 space, hardware-address text parser on every string up to 17 characters',
 }
 NA = {
+ 'C11': 'attempted and out of reach: RadioTap::RadioTap() (six in-place vector insertions through Utils::RadioTapWriter) alone gets no verdict from CBMC in 300 s / 12 GB, and the from-buffer parser is only decided up to 3 option bytes (C01); the inductive setter step of DESIGN 5/C11 therefore cannot be discharged on this image',
+ 'C10': 'not decided: the section getters and add_* editors work on std::string / std::list<record> built from a symbolic-length byte walk; DNS(buffer) itself is only decided up to 14 bytes (C01) and no editor query finished; no claim is made',
+ 'C08': 'not decided: IPv4Stream/IPv4Reassembler keep std::vector<IPv4Fragment> + std::map keyed by address pairs and re-parse the concatenated payload through the full dispatcher; no harness with more than one fragment finished within the budget; no claim is made',
+ 'C04': 'not decided as a whole: typed option setters/getters need the real std::vector<PDUOption> with several elements, which this encoding does not finish (see DESIGN 2.5 / 7); scalar header fields are covered by C15 and raw option value semantics by C12(b)',
  'C17': 'file round-trip and BPF filter semantics are libpcap + file-system behaviour (FFI / I/O); once they are stubbed nothing libtins-authored remains except the exception filter of the capture loop',
 }
 PENDING = 'not decided by the committed machinery yet (see DESIGN.md for the planned encoding); no claim is made'
